@@ -35,9 +35,19 @@ func c02Paths() []*refsem.E {
 	}
 }
 
+var c02ChainPaths = []*refsem.E{refsem.Key("a"), refsem.Key("b"), refsem.Key("c"), refsem.Idx(0), refsem.Idx(1)}
+var c02ChainTails = []*refsem.E{refsem.Key("c"), refsem.Idx(0)}
+
+func c02ChainSrc() []*refsem.E {
+	return []*refsem.E{refsem.Lit(fromJSONText(`{"c": 2}`)), refsem.Lit(fromJSONText("[2, 3]")), refsem.Key("b"), refsem.Idx(0)}
+}
+
 func c02Values() []*refsem.E {
 	lit := func(s string) *refsem.E { return refsem.Lit(fromJSONText(s)) }
-	return []*refsem.E{lit("null"), lit("2"), lit(`"z"`), lit("[]"), lit("{}"), lit("[2]"), lit(`{"c": 2}`), refsem.Key("b"), refsem.Key("a")}
+	pipe := func(a, b *refsem.E) *refsem.E { return refsem.Bin("pipe", a, b) }
+	return []*refsem.E{lit("null"), lit("2"), lit(`"z"`), lit("[]"), lit("{}"), lit("[2]"), lit(`{"c": 2}`), refsem.Key("b"), refsem.Key("a"),
+		// sources read from elsewhere in the document by index, including the index just past the end (reading must not pad)
+		pipe(refsem.Key("b"), refsem.Idx(0)), pipe(refsem.Key("b"), refsem.Idx(1)), refsem.Idx(0), refsem.Idx(1), refsem.Idx(2)}
 }
 
 func c02Funcs() []*refsem.E {
@@ -169,8 +179,9 @@ func c02Run(c *fw.Ctx) error {
 		docs = val.Universe(4, val.Sigma(), []string{"a", "b"})
 	}
 	paths, vals, funcs := c02Paths(), c02Values(), c02Funcs()
+	chainSources := c02ChainSrc()
 	operands := []*refsem.E{refsem.Lit(val.IntV(1)), refsem.Lit(fromJSONText("[2]")), refsem.Lit(fromJSONText(`{"c": 2}`)), refsem.Key("b")}
-	c.Res.Bound = fmt.Sprintf("%d documents x %d paths x (%d values + %d update functions + 3 compound operators x %d operands) + put-get/put-put/get-put law instances", len(docs), len(paths), len(vals), len(funcs), len(operands))
+	c.Res.Bound = fmt.Sprintf("%d documents x %d paths x (%d values + %d update functions + 3 compound operators x %d operands) + put-get/put-put/get-put law instances + bind-assign-assign-edit chains (4 sources x 20 path pairs x 2 tails x 2 places)", len(docs), len(paths), len(vals), len(funcs), len(operands))
 	var idx int64
 	run := func(cs c02Case, order int64) {
 		kind, detail, defined := c02Check(cs)
@@ -244,6 +255,25 @@ func c02Run(c *fw.Ctx) error {
 			for oi, o := range operands {
 				for _, op := range []string{"addassign", "subassign", "mulassign"} {
 					run(c02Case{Law: "ref", Expr: refsem.Bin(op, p, o), Doc: dj}, order+300+int64(oi))
+				}
+			}
+			// one free-standing value bound to a variable, assigned to two places, then one of the places is edited:
+			// the other place and the variable's source are outside the edited path (frame condition across assignments)
+			if pi < len(c02ChainPaths) {
+				p1 := c02ChainPaths[pi]
+				for si, src := range chainSources {
+					for qi, p2 := range c02ChainPaths {
+						if qi == pi {
+							continue
+						}
+						for ti, tail := range c02ChainTails {
+							for wi, which := range []*refsem.E{p1, p2} {
+								body := refsem.Bin("pipe", refsem.Bin("pipe", refsem.Bin("assign", p1, refsem.Var("v")), refsem.Bin("assign", p2, refsem.Var("v"))),
+									refsem.Bin("assign", refsem.Bin("pipe", which, tail), refsem.Lit(val.IntV(7))))
+								run(c02Case{Law: "ref", Expr: refsem.As(src, "v", body), Doc: dj}, order+400+int64(si*100+qi*10+ti*2+wi))
+							}
+						}
+					}
 				}
 			}
 			if di%37 == 5 && pi%7 == 2 {
